@@ -126,7 +126,13 @@ impl GenerationPass for AvailableValuePass {
         // yet, which is not the same as knowing nothing. Only code that no
         // visited node leads to (an unreachable cycle) is started without.
         let mut wait_for_a_predecessor = true;
-        while changed {
+        // The first sweep only sees the predecessors that come earlier in the
+        // program: it never is the last one, even when it reproduces the values
+        // of an earlier run (a predecessor may have been added since, as when a
+        // return has been redirected to the exit of its function).
+        let mut sweeps = 0;
+        while changed || sweeps < 2 {
+            sweeps += 1;
             changed = false;
             let visited_before = visited.len();
             let mut waiting = false;
